@@ -13,7 +13,9 @@ mod c07;
 mod c08;
 mod c09;
 mod c10;
+mod c11;
 mod c12;
+mod c13;
 mod c14;
 mod c17;
 
@@ -74,6 +76,8 @@ fn main() {
         "C10" => c10::run(&mut rec, &mut w, &tier, seed),
         "C12" => c12::run(&mut rec, &mut w, &tier, seed),
         "C14" => c14::run(&mut rec, &mut w, &tier, seed),
+        "C13" => c13::run(&mut rec, &mut w, &tier, seed),
+        "C11" => c11::run(&mut rec, &mut w, &tier, seed),
         "C02" => c02::run(&mut rec, &mut w, &tier, seed),
         "C03" => c03::run(&mut rec, &mut w, &tier, seed),
         "C04" => c04::run(&mut rec, &mut w, &tier, seed),
